@@ -16,6 +16,7 @@ func init() {
 		e.RWalk()
 		e.RMapOrder(func(m mapRange) bool { return m.fd.Name.Name == "updateImports" })
 		e.RUniqueNames()
+		e.RAddsEveryMissing()
 		e.RAliasFlow()
 		e.RPackageNamesOwnership()
 		e.RRestoreIdent()
